@@ -12,7 +12,22 @@ C == INSTANCE Consts
 R == INSTANCE RustTypes
 
 SeqOfSet(f, s) == [ i \in DOMAIN s |-> f[s[i]] ]
-EmittedStructs(S) == SelectSeq(S.structs, LAMBDA d : d.name \in Emit(S))
+(* The front end lowers the module-scope declarations in source order but a declaration's dependencies first (WGSL allows use before *)
+(* declaration), so the type arena - and with it the order of the emitted structs - is the depth-first post-order over `alias` and       *)
+(* `struct` declarations: a struct declared later is pulled forward by the first alias or member that mentions it.                       *)
+RECURSIVE VisitTy(_, _, _), VisitStruct(_, _, _), VisitMembers(_, _, _, _)
+VisitTy(S, t, acc) ==
+  CASE t.k = "struct" -> VisitStruct(S, t.name, acc)
+    [] t.k \in {"array", "rtarray"} -> VisitTy(S, t.e, acc)
+    [] OTHER -> acc
+VisitMembers(S, ms, i, acc) == IF i > Len(ms) THEN acc ELSE VisitMembers(S, ms, i + 1, VisitTy(S, ms[i].ty, acc))
+VisitStruct(S, n, acc) ==
+  IF n \in Range(acc) THEN acc ELSE Append(VisitMembers(S, StructDef(S, n).members, 1, acc), n)
+RECURSIVE LowerAliases(_, _, _), LowerStructs(_, _, _)
+LowerAliases(S, i, acc) == IF ~Has(S, "aliases") \/ i > Len(S.aliases) THEN acc ELSE LowerAliases(S, i + 1, VisitTy(S, S.aliases[i].ty, acc))
+LowerStructs(S, i, acc) == IF i > Len(S.structs) THEN acc ELSE LowerStructs(S, i + 1, VisitStruct(S, S.structs[i].name, acc))
+LoweringOrder(S) == LowerStructs(S, 1, LowerAliases(S, 1, << >>))
+EmittedStructs(S) == LET names == SelectSeq(LoweringOrder(S), LAMBDA n : n \in Emit(S)) IN [ i \in DOMAIN names |-> StructDef(S, names[i]) ]
 
 (* derive list in the order the generator pushes it *)
 DeriveSeq(S, n, o) ==
